@@ -149,5 +149,25 @@ TEXTS = {
         "note": "Trusted: as C01; error referrers are not compared between alternative histories.",
         "technique": "executable Coq model of build/reload histories + differential testing + relational judge on real histories",
     },
+    "C13": {
+        "text": ("Part (a) only. Coq theorems over an executable model of the serde codec of analysis::ModuleInfo at "
+                 "serde_json::Value level (Model/Codec.v: every serde attribute of analysis.rs:18-290 and of "
+                 "Position/PositionRange transcribed, decoders covering map and sequence forms, internally tagged / "
+                 "untagged / flattened types and serde's buffered-content corner cases): decoding an encoding gives "
+                 "back the value for ALL values (C13_roundtrip, C13_roundtrip_exact), also from any reordering of "
+                 "object keys (C13_roundtrip_unordered: the decoder is insensitive to key order), the encoding is injective, "
+                 "encodings have distinct object keys; and over module_graph_1_to_2: a dependency whose last leading "
+                 "comment matches find_deno_types decodes with exactly that types specifier and all other fields "
+                 "unchanged, leadingComments removed, entries without comments untouched, for every find_deno_types "
+                 "function. Tied to the code on every run by differential execution (enumerated shapes, analysed "
+                 "corpus sources, mutated JSON, generated v1 manifests) and by two proved decision procedures "
+                 "evaluated on the real outputs. Part (b) (manifest shortcut equals parsing) is NOT claimed."),
+        "design_ref": "DESIGN.md section 5 C13 (model a)",
+        "note": ("Trusted: Coq kernel; extraction; harness abstraction of ModuleInfo/serde_json::Value to the wire "
+                 "format; serde_json's text layer; the regex behind find_deno_types (data). The decoder model is "
+                 "faithful on Values whose numbers are u64 < 2^62; usize arithmetic in the range computation is "
+                 "unbounded in the model."),
+        "technique": "Coq proof (encoder/decoder inversion, association-list reasoning) + extracted-model differential testing + proved decision procedures on real outputs",
+    },
 }
 NOT_YET = {}
